@@ -9,6 +9,7 @@ from simlib import Rng, mkspec, random_sched, starve_each
 PROPERTY = "C13"
 LEVEL = "exploration"
 BUDGET = {"quick": 70, "thorough": 1200}
+MIN_CASES = {"quick": 2500}  # see checklib.Check: quick goes on to this many cases on a loaded machine (up to 3x its budget)
 RULE = ("cases: left file and right stream with duplicate, missing and empty join keys, every record carrying a unique id in a "
         "non-join field; option sets over -j/-l/-r, --lp/--rp, --np/--ul/--ur, --ignore-empty, -i fmt, -s (on key-sorted inputs), "
         "-u; each case runs the real pipeline (main reader + join's own left-file reader goroutine and its two 2-way selects) "
